@@ -608,6 +608,21 @@ class Typestate(object):
                     if not keep:
                         return None
                     return setp(s, p, keep)
+            if e0.k == 'call' and callee_name(e0) == 'COTmrDelete' and len(e0.kids) >= 3:
+                # the result of the delete is tested directly in the condition (no local in between)
+                p = hpath(node.id, strip(e0.kids[2]))
+                if p is not None:
+                    failed = cmp(op, -1, c)
+                    ok = cmp(op, 0, c)
+                    t = get(s, p)
+                    if failed == lab and ok != lab:
+                        nt = set(t)
+                        if D in nt or DE in nt:
+                            nt.discard(D)
+                            nt.discard(DE)
+                            nt.add(F_)
+                        return setp(s, p, nt)
+                    return s
             if e0.k == 'ref' and ('B', e0.ref) in s:
                 p = s[('B', e0.ref)]
                 failed = cmp(op, -1, c)
@@ -1088,56 +1103,67 @@ def _chain_member_exception(m, ts, handles, f, fld, p):
         why = works_on_member(fname, root, m.node_of(fname, n), 0)
         if why:
             return (False, why)
-    # (2) identity search + delete on the found path in f
-    fn = m.funcs[f]
-    g = m.cfg(f)
-    pids = dict((prm[3], prm[0]) for prm in fn.params)
+    # (2) identity search + delete on the found path in f.  The search may live in a helper extracted from f (a function
+    #     the rule tables do not know): then it looks for the parameter that receives f's entry
     owner = p.split('->')[0]
+    where = [(f, owner)]
+    for h in m.helper_closure(f)[1:]:
+        hf = m.funcs[h]
+        for (caller, cx) in m.call_sites(h):
+            cown = dict(where).get(caller)
+            if cown is None:
+                continue
+            for i_, a_ in enumerate(cx.kids[1:]):
+                a0_ = strip(a_)
+                if a0_ is not None and a0_.k == 'ref' and a0_.name == cown and i_ < len(hf.params):
+                    where.append((h, hf.params[i_][0]))
     search = False
-    search_nodes = []
-    for node in g.nodes:
-        if node.kind != 'br':
-            continue
-        x = strip(node.x)
-        if x.k == 'bin' and x.op in ('==', '!='):
-            a, b = strip(x.kids[0]), strip(x.kids[1])
-            for (u, v) in ((a, b), (b, a)):
-                if u.k == 'ref' and u.refk == 'VarDecl' and v.k == 'ref' and v.name == owner:
-                    org = an.origins(f, node.id, u.ref)
-                    if org and org <= set([head]):
-                        search = True
-                        search_nodes.append((node.id, u.ref))
+    for (f_, owner_) in where:
+        g = m.cfg(f_)
+        search_nodes = []
+        for node in g.nodes:
+            if node.kind != 'br':
+                continue
+            x = strip(node.x)
+            if x.k == 'bin' and x.op in ('==', '!='):
+                a, b = strip(x.kids[0]), strip(x.kids[1])
+                for (u, v) in ((a, b), (b, a)):
+                    if u.k == 'ref' and u.refk == 'VarDecl' and v.k == 'ref' and v.name == owner_:
+                        org = an.origins(f_, node.id, u.ref)
+                        if org and org <= set([head]):
+                            search = True
+                            search_nodes.append((node.id, u.ref))
+        # the identity search is COMPLETE: the walk that contains it ends only at the end of the chain or when the entry is
+        # found - a walk that can also stop for another reason (first entry with the same node id ...) misses an entry
+        # that is linked behind that point, and its action keeps running
+        for (snid, cref) in search_nodes:
+            lps = [lp for lp in g.loops if snid in lp.nodes or snid in lp.cond_nodes]
+            if not lps:
+                continue
+            lp = min(lps, key=lambda l: len(l.nodes))
+            for nid_ in lp.nodes:
+                nd_ = g.nodes[nid_]
+                for (t_, lab_) in nd_.succ:
+                    if t_ in lp.nodes or t_ == lp.head:
+                        continue
+                    ok_exit = False
+                    if nd_.kind == 'br' and nd_.x is not None:
+                        bx = strip(nd_.x)
+                        if nid_ == snid:
+                            ok_exit = True
+                        elif bx.k == 'bin' and bx.op in ('==', '!='):
+                            a_, b_ = strip(bx.kids[0]), strip(bx.kids[1])
+                            for (u_, v_) in ((a_, b_), (b_, a_)):
+                                if u_.k == 'ref' and u_.ref == cref and const_eval(v_) == 0:
+                                    ok_exit = True
+                        elif bx.k == 'ref' and bx.ref == cref:
+                            ok_exit = True
+                    if not ok_exit:
+                        return (False, 'the walk that looks %s up by identity can end early at line %d (%s) before the whole chain was '
+                                       'visited: an entry linked behind that point is not found and its action keeps running'
+                                       % (owner, nd_.line, show(nd_.x) if nd_.x is not None else nd_.kind))
     if not search:
         return (False, 'no identity search of the chain in %s' % f)
-    # the identity search is COMPLETE: the walk that contains it ends only at the end of the chain or when the entry is
-    # found - a walk that can also stop for another reason (first entry with the same node id ...) misses an entry
-    # that is linked behind that point, and its action keeps running
-    for (snid, cref) in search_nodes:
-        lps = [lp for lp in g.loops if snid in lp.nodes or snid in lp.cond_nodes]
-        if not lps:
-            continue
-        lp = min(lps, key=lambda l: len(l.nodes))
-        for nid_ in lp.nodes:
-            nd_ = g.nodes[nid_]
-            for (t_, lab_) in nd_.succ:
-                if t_ in lp.nodes or t_ == lp.head:
-                    continue
-                ok_exit = False
-                if nd_.kind == 'br' and nd_.x is not None:
-                    bx = strip(nd_.x)
-                    if nid_ == snid:
-                        ok_exit = True
-                    elif bx.k == 'bin' and bx.op in ('==', '!='):
-                        a_, b_ = strip(bx.kids[0]), strip(bx.kids[1])
-                        for (u_, v_) in ((a_, b_), (b_, a_)):
-                            if u_.k == 'ref' and u_.ref == cref and const_eval(v_) == 0:
-                                ok_exit = True
-                    elif bx.k == 'ref' and bx.ref == cref:
-                        ok_exit = True
-                if not ok_exit:
-                    return (False, 'the walk that looks %s up by identity can end early at line %d (%s) before the whole chain was '
-                                   'visited: an entry linked behind that point is not found and its action keeps running'
-                                   % (owner, nd_.line, show(nd_.x) if nd_.x is not None else nd_.kind))
     res = ts.analyse(f)
     if not any(d[1] == p for d in res.deletes):
         return (False, 'no delete of %s in %s' % (p, f))
